@@ -94,3 +94,35 @@ def explore(acc, execute, depth, cap=20000):
     if st['capped']:
         acc.c['instances_capped_before_full_depth'] += 1
     return st
+
+
+def t_ordered(acc, fn, params, order):
+    """Runs a plain task function inside an instrumented worker under one fixed global set order
+    (order = 'canonical' or 'reversed'): every set iteration of the library then follows that order instead of
+    CPython's.  Used to give the input-space checks a second and third iteration order at small cost."""
+    import importlib
+    mod, name = fn.split(':')
+    f = getattr(importlib.import_module(mod), name)
+    instr.S.reset(boost=(), budget=10 ** 15, native=False, record=False, reverse=(order == 'reversed'))
+    try:
+        f(acc, **params)
+    finally:
+        instr.S.reset()
+    acc.c['executions_under_the_%s_global_order' % order] += acc.transitions
+    for lst in acc.viols.values():
+        for rec in lst:
+            if isinstance(rec.get('instance'), dict):
+                rec['instance']['set_order'] = order + ' global order (instrumented)'
+            rp = rec.get('repro')
+            if rp and rp.get('fn') != 'mc.props.common:t_ordered':
+                rec['repro'] = {'fn': 'mc.props.common:t_ordered', 'mode': 'instr', 'params': {'fn': rp['fn'], 'params': rp['params'], 'order': order}}
+
+
+def ordered_copies(tasks, select, orders=('canonical', 'reversed')):
+    """For every plain task accepted by select(name, params) add copies that run under the given global orders."""
+    out = []
+    for (mode, name, params) in tasks:
+        if mode == 'plain' and select(name, params):
+            for o in orders:
+                out.append(('instr', 'mc.props.common:t_ordered', {'fn': name, 'params': params, 'order': o}))
+    return out
